@@ -128,3 +128,11 @@
         crate::vcover!(declared && !ok2 && ok1);
         core::mem::forget(fin);
     }
+
+    /// scaffolding: give back the inner writer of a payload writer built by `lzma_new_zeroed` without running drop glue
+    pub(crate) fn take_inner<W: Write>(s: LZMAWriter<W>) -> W {
+        unsafe {
+            let s = core::mem::ManuallyDrop::new(s);
+            core::ptr::read(&s.rc).into_inner()
+        }
+    }
